@@ -188,17 +188,25 @@ def check(F, rep):
 
     # ---- 5. authorization
     acc = call_sites(F, HS + "SuccessfulAuthentication::accept")
-    rep.floor("who_calls", "callers of SuccessfulAuthentication::accept", len(acc), 2)
+    rep.floor("who_calls", "callers of SuccessfulAuthentication::accept", len(acc), 1)
     allowed = {HS + "SuccessfulAuthentication::authorize_with", HS + "SuccessfulAuthentication::authorize_if"}
     for f2, b, t, kind in acc:
         rep.fn(f2)
         src = source_fn(F, f2)
         rep.ob("who_calls", src in allowed and kind == "call", site(f2, b), "accept called from %s" % src, skey(F, f2, "accept-caller"))
     ACCESS = "iroh_relay::server::Access"
+    deciders = 0
     for name in ("authorize_with", "authorize_if"):
         g = body_of(F, rep, HS + "SuccessfulAuthentication::" + name)
         ac = find_calls(g, HS + "SuccessfulAuthentication::accept")
         dn = find_calls(g, HS + "SuccessfulAuthentication::deny")
+        if not ac and not dn:
+            # pure delegation to the sibling (which is checked itself) is accepted
+            other = "authorize_if" if name == "authorize_with" else "authorize_with"
+            dl = find_calls(g, HS + "SuccessfulAuthentication::" + other)
+            rep.ob("authorization", len(dl) == 1, site(g), "%s neither accepts nor denies itself: it must delegate to %s" % (name, other), skey(F, g, "delegates"))
+            continue
+        deciders += 1
         rep.exact("authorization", "accept calls in " + name, len(ac), 1)
         rep.exact("authorization", "deny calls in " + name, len(dn), 1)
         # the switch on the Access discriminant
@@ -218,6 +226,7 @@ def check(F, rep):
             rep.ob("return_shape", not bad, site(g, sb), "paths not taking the Allow edge return Err only", skey(F, g, "deny-returns-err"))
             rep.ob("requires_success", dn[0][0] not in g.reachable(0, removed_edges=deny_edges), site(g, dn[0][0]),
                    "deny reachable only through the Deny edge", skey(F, g, "deny-on-deny"))
+    rep.floor("authorization", "functions deciding accept/deny on an Access value", deciders, 1)
     # accept writes ServerConfirmsAuth, deny writes ServerDeniesAuth
     a = body_of(F, rep, HS + "SuccessfulAuthentication::accept")
     wa = find_calls(a, HS + "write_frame")
